@@ -11,7 +11,53 @@ using namespace stim;
 using namespace vh;
 
 // loop bodies with a designed transient length t and period p of the tracked state
+// feedback after (or around) a folded loop whose lookback crosses the loop boundary; results before the loop differ from those inside
+static Circuit boundary_feedback_circuit(Rng &rng, Stats &st, uint64_t &reps_out) {
+    Circuit c;
+    size_t pre = rng.below(6);
+    uint64_t reps = 8 + rng.below(50);
+    reps_out = reps;
+    bool excited = rng.chance(0.7);
+    if (excited) c.safe_append_u("X", {0});
+    if (pre) {
+        std::vector<uint32_t> t(pre, 0);
+        c.safe_append_u(rng.chance(0.3) ? "MPAD" : "M", t);
+    }
+    int variant = (int)rng.below(3);
+    Circuit body;
+    if (variant == 0) {
+        c.safe_append_u("R", {0});
+        body.safe_append_u("M", {0});
+    } else if (variant == 1) {
+        body.safe_append_u("MR", {0});   // one-iteration transient when excited
+    } else {
+        body.safe_append_u("X", {0});
+        body.safe_append_u("M", {0});    // alternating values
+    }
+    auto feedback = [&](Circuit &dst) {
+        uint32_t lb = (uint32_t)(1 + rng.below(4));
+        dst.safe_append_u("CX", {TARGET_RECORD_BIT | lb, 1});
+        dst.safe_append_u("M", {1});
+    };
+    if (rng.chance(0.3)) {
+        Circuit outer;
+        outer.append_repeat_block(reps, body, "");
+        feedback(outer);
+        // lookbacks must exist already in the first outer iteration
+        c.safe_append_u("M", {0, 0, 0, 0});
+        c.append_repeat_block(2 + rng.below(3), outer, "");
+    } else {
+        if (c.count_measurements() + reps < 4) c.safe_append_u("M", {0, 0, 0, 0});
+        c.append_repeat_block(reps, body, "");
+        feedback(c);
+        if (rng.chance(0.5)) feedback(c);
+    }
+    st.hit("template.boundary_feedback");
+    return c;
+}
+
 static Circuit loop_circuit(Rng &rng, Stats &st, uint64_t &reps_out, bool huge) {
+    if (!huge && rng.chance(0.2)) return boundary_feedback_circuit(rng, st, reps_out);
     int tmpl = (int)rng.below(8);
     if (huge && (tmpl == 5 || tmpl == 7)) tmpl = 1;   // template 5 keeps unreset state whose sensitivity grows with the iteration count: not foldable, only run at small counts
     int p = 1 + (int)rng.below(6);      // period
